@@ -220,10 +220,12 @@ def h_config_isolation(ctx):
         if s != section:
             cfg.setdefault(s, {})[key] = ctx.int("%s_%s" % (s.replace("-", "_"), key), 1)
     # another linter's own `ignore` list that happens to match the subject's files: it excuses files from THAT linter only
-    others = [s for s in ("srp", "nesting", "magic-numbers", "stateless-class") if s != section][:3]
-    ig = ctx.pick("ignore_list_in_the_section_of", ("none",) + tuple(others))
+    # (the thorough tier already carries 16 symbolic switches and 6 thresholds per subject: one section and two lists there)
+    others = [s for s in ("srp", "nesting", "magic-numbers", "stateless-class") if s != section][:3 if quick else 1]
+    ig = ctx.pick("ignore_list_in_the_section_of", ("none",) + tuple(others)) if (quick or section in ("nesting", "magic-numbers")) else "none"
     if ig != "none":
-        cfg.setdefault(ig, {})["ignore"] = ctx.pick("ignore_patterns", (["src/"], ["**/*.py", "**/*.ts", "**/*.rs", "**/*.js"], [n for n in names]))
+        lists = (["src/"], ["**/*.py", "**/*.ts", "**/*.rs", "**/*.js"], [n for n in names])
+        cfg.setdefault(ig, {})["ignore"] = ctx.pick("ignore_patterns", lists if quick else lists[:2])
     # stray top-level keys that belong to no linter section (global settings, leftovers): no linter reads them as its own
     if ctx.flag("stray_top_level_keys"):
         cfg.update({"enabled": False, "min_continues": 9, "max_nesting_depth": 1, "max_methods": 1, "allowed_numbers": [3975], "output_format": "text"})
@@ -259,5 +261,5 @@ def obligations(tier):
         Ob(name="K4-config-isolation", engine="pathex", harness=h_config_isolation,
            functions=["Orchestrator.lint_files with symbolic settings of the other linters", "each rule's _load_config"],
            bounds="for 7 subject linters (stray top-level keys added or not): `enabled` of up to 15 other linters symbolic booleans and 6 of their thresholds unbounded integers >= 1 (all symbolic; path splits only where those other rules branch)",
-           timeout=900, workers=14, must_cover=("checked",)),
+           timeout=900 if tier == "quick" else 2700, workers=14, must_cover=("checked",), max_paths=400000 if tier == "quick" else 900000),
     ]
